@@ -572,6 +572,10 @@ impl World {
 
     /// instantiate one more vAMM (own decimals) in the same app, opened, not registered
     pub fn instantiate_vamm(&mut self, decimals: u8) -> Addr {
+        self.instantiate_vamm_with(decimals, true)
+    }
+    /// `with_engine = false`: the vAMM is deployed without any margin engine configured
+    pub fn instantiate_vamm_with(&mut self, decimals: u8, with_engine: bool) -> Addr {
         let d = pow10(decimals);
         let id = self.app.store_code(c_vamm());
         let v = self
@@ -590,7 +594,7 @@ impl World {
                     spread_ratio: Uint128::zero(),
                     fluctuation_limit_ratio: Uint128::zero(),
                     pricefeed: self.feed.to_string(),
-                    margin_engine: Some(self.engine.to_string()),
+                    margin_engine: if with_engine { Some(self.engine.to_string()) } else { None },
                     insurance_fund: Some(self.ins.to_string()),
                 },
                 &[],
